@@ -1,4 +1,198 @@
-import SdModel.Model.Rope
+import SdModel.Lemmas.Rope
+import SdModel.Gen.Params
+
+/-!
+# C09 — the rope behaves exactly like a growable array under every operation history
+
+`Rope.RInv P r` : every chunk holds between 1 and MAX-1 elements; `Rope.flat r` : the sequence.
+The step theorems are proved for EVERY parameter record satisfying the arithmetic side conditions
+`Rope.PWF`; below they are instantiated at the constants regenerated from the source on this run
+(`Gen.ropeParams`, and the scaled-down twin `Gen.ropeParamsSmall`), the side conditions being
+discharged by `decide` — a retuning that violates them breaks these proofs.
+Chunks are bounded lists; that an `ArrayMap` chunk behaves like one is C10.
+-/
 namespace C09
-theorem placeholder : True := trivial
+open Rope
+variable {α : Type}
+
+/-- side conditions hold for the constants extracted from the source -/
+theorem params_wf : PWF Gen.ropeParams := by
+  refine ⟨?_, ?_, ?_, ?_, ?_⟩ <;> decide
+
+theorem params_small_wf : PWF Gen.ropeParamsSmall := by
+  refine ⟨?_, ?_, ?_, ?_, ?_⟩ <;> decide
+
+/-- the two literals of `FromIterator` (`take(k)` and `!= k`) agree -/
+theorem fromIter_literals_agree : Gen.ropeChunkNe = Gen.ropeParams.CHUNK := by decide
+
+abbrev P := Gen.ropeParams
+
+theorem new_ok : RInv P (Rope.new false : Chunks α) ∧ flat (Rope.new false : Chunks α) = [] := new_spec P
+
+theorem fromIter_ok (l : List α) : RInv P (fromIter P l) ∧ flat (fromIter P l) = l := fromIter_spec P params_wf l
+
+theorem len_ok (r : Chunks α) : len r = (flat r).length := len_eq r
+
+theorem index_in_range (r : Chunks α) (i : Nat) (hi : i < (flat r).length) : index r i = .ok ((flat r)[i]) :=
+  index_ok r i hi
+
+/-- reading at or past the length panics instead of returning a wrong element -/
+theorem index_past_end_panics (r : Chunks α) (i : Nat) (hi : (flat r).length ≤ i) : ∃ e, index r i = .error e :=
+  index_panics r i hi
+
+theorem iter_ok (r : Chunks α) (hI : RInv P r) : iter r = .ok (flat r) := iter_eq_flat P r hI
+
+theorem intoIter_ok (r : Chunks α) : intoList r = flat r := rfl
+
+theorem insert_ok (r : Chunks α) (i : Nat) (x : α) (hI : RInv P r) (hi : i ≤ (flat r).length) :
+    ∃ r', Rope.insert P r i x = .ok r' ∧ RInv P r' ∧ flat r' = (flat r).insertIdx i x :=
+  insert_refines P params_wf r i x hI hi
+
+theorem remove_ok (r : Chunks α) (i : Nat) (hI : RInv P r) (hi : i < (flat r).length) :
+    ∃ r', remove P r i = .ok r' ∧ RInv P r' ∧ flat r' = (flat r).eraseIdx i :=
+  remove_refines P params_wf r i hI hi
+
+theorem drain_ok (r : Chunks α) (l h : Nat) (hI : RInv P r) (hlh : l ≤ h) (hh : h < (flat r).length) :
+    ∃ r', drain P r l h = .ok r' ∧ RInv P r' ∧ flat r' = (flat r).take l ++ (flat r).drop (h + 1) :=
+  drain_refines P params_wf r l h hI hlh hh
+
+theorem swap_ok (r : Chunks α) (a b : Nat) (hI : RInv P r) (ha : a < (flat r).length) (hb : b < (flat r).length) :
+    ∃ r', swap r a b = .ok r' ∧ RInv P r' ∧ flat r' = listSwap (flat r) a b :=
+  swap_refines P r a b hI ha hb
+
+theorem set_ok (r : Chunks α) (i : Nat) (v : α) (hI : RInv P r) (hi : i < (flat r).length) :
+    ∃ r', set r i v = .ok r' ∧ RInv P r' ∧ flat r' = (flat r).set i v :=
+  set_refines P r i v hI hi
+
+/-! ### every operation history -/
+
+inductive Op (α : Type) where
+  | insert (i : Nat) (x : α)
+  | remove (i : Nat)
+  | drain (l h : Nat)       -- inclusive range
+  | swap (a b : Nat)
+  | set (i : Nat) (v : α)
+
+def stepRope (Q : Params) (r : Chunks α) : Op α → Except String (Chunks α)
+  | .insert i x => Rope.insert Q r i x
+  | .remove i => remove Q r i
+  | .drain l h => drain Q r l h
+  | .swap a b => swap r a b
+  | .set i v => set r i v
+
+/-- the same operation on a plain growable array; `none` = out of range -/
+def stepVec (L : List α) : Op α → Option (List α)
+  | .insert i x => if i ≤ L.length then some (L.insertIdx i x) else none
+  | .remove i => if i < L.length then some (L.eraseIdx i) else none
+  | .drain l h => if l ≤ h ∧ h < L.length then some (L.take l ++ L.drop (h + 1)) else none
+  | .swap a b => if a < L.length ∧ b < L.length then some (listSwap L a b) else none
+  | .set i v => if i < L.length then some (L.set i v) else none
+
+def runRope (Q : Params) (r : Chunks α) : List (Op α) → Except String (Chunks α)
+  | [] => .ok r
+  | op :: ops => match stepRope Q r op with
+    | .ok r' => runRope Q r' ops
+    | .error e => .error e
+
+def runVec (L : List α) : List (Op α) → Option (List α)
+  | [] => some L
+  | op :: ops => match stepVec L op with
+    | some L' => runVec L' ops
+    | none => none
+
+theorem step_ok (Q : Params) (hw : PWF Q) (r : Chunks α) (hI : RInv Q r) (op : Op α) (L' : List α)
+    (h : stepVec (flat r) op = some L') : ∃ r', stepRope Q r op = .ok r' ∧ RInv Q r' ∧ flat r' = L' := by
+  cases op with
+  | insert i x =>
+    simp only [stepVec] at h; split at h
+    · cases h; exact insert_refines Q hw r i x hI (by assumption)
+    · cases h
+  | remove i =>
+    simp only [stepVec] at h; split at h
+    · cases h; exact remove_refines Q hw r i hI (by assumption)
+    · cases h
+  | drain l hh =>
+    simp only [stepVec] at h; split at h
+    · rename_i hc; cases h; exact drain_refines Q hw r l hh hI hc.1 hc.2
+    · cases h
+  | swap a b =>
+    simp only [stepVec] at h; split at h
+    · rename_i hc; cases h; exact swap_refines Q r a b hI hc.1 hc.2
+    · cases h
+  | set i v =>
+    simp only [stepVec] at h; split at h
+    · cases h; exact set_refines Q r i v hI (by assumption)
+    · cases h
+
+/-- what can be observed of a rope: length, every indexed read, borrowed and consuming iteration -/
+def observe (r : Chunks α) : Nat × (Nat → Option α) × Except String (List α) × List α :=
+  (len r, (fun i => match index r i with | .ok v => some v | .error _ => none), iter r, intoList r)
+
+def observeVec (L : List α) : Nat × (Nat → Option α) × Except String (List α) × List α :=
+  (L.length, (fun i => L[i]?), .ok L, L)
+
+theorem observe_eq (Q : Params) (r : Chunks α) (hI : RInv Q r) : observe r = observeVec (flat r) := by
+  unfold observe observeVec
+  rw [len_eq, iter_eq_flat Q r hI]
+  refine Prod.ext rfl (Prod.ext ?_ rfl)
+  funext i
+  by_cases hi : i < (flat r).length
+  · simp only [index_ok r i hi, List.getElem?_eq_getElem hi]
+  · obtain ⟨e, he⟩ := index_panics r i (by omega)
+    simp only [he, List.getElem?_eq_none (Nat.le_of_not_lt hi)]
+
+/-- **C09**: starting from any rope satisfying the invariant, any finite history of in-range
+operations runs without panic, re-establishes the invariant, and leaves a rope whose length,
+indexed reads (incl. the panic at or past the length), borrowed iteration and consuming iteration
+all agree with the plain growable array subjected to the same operations. Any parameters satisfying
+the side conditions. -/
+theorem history_gen (Q : Params) (hw : PWF Q) (ops : List (Op α)) (r : Chunks α) (hI : RInv Q r) (L' : List α)
+    (h : runVec (flat r) ops = some L') :
+    ∃ r', runRope Q r ops = .ok r' ∧ RInv Q r' ∧ flat r' = L' ∧ observe r' = observeVec L' := by
+  induction ops generalizing r with
+  | nil =>
+    simp only [runVec] at h; cases h
+    exact ⟨r, rfl, hI, rfl, observe_eq Q r hI⟩
+  | cons op ops ih =>
+    simp only [runVec] at h
+    split at h
+    · rename_i L1 h1
+      obtain ⟨r1, e1, hI1, hf1⟩ := step_ok Q hw r hI op L1 h1
+      obtain ⟨r', e2, hI2, hf2, ho⟩ := ih r1 hI1 (by rw [hf1]; exact h)
+      exact ⟨r', by simp [runRope, e1, e2], hI2, hf2, ho⟩
+    · cases h
+
+/-- production constants, from `from_iter` of any sequence -/
+theorem history_from_iter (init : List α) (ops : List (Op α)) (L' : List α) (h : runVec init ops = some L') :
+    ∃ r', runRope P (fromIter P init) ops = .ok r' ∧ RInv P r' ∧ observe r' = observeVec L' := by
+  obtain ⟨hI, hf⟩ := fromIter_ok init
+  obtain ⟨r', h1, h2, _, h4⟩ := history_gen P params_wf ops (fromIter P init) hI L' (by rw [hf]; exact h)
+  exact ⟨r', h1, h2, h4⟩
+
+/-- production constants, from `new()` -/
+theorem history_from_new (ops : List (Op α)) (L' : List α) (h : runVec [] ops = some L') :
+    ∃ r', runRope P (Rope.new false) ops = .ok r' ∧ RInv P r' ∧ observe r' = observeVec L' := by
+  obtain ⟨hI, hf⟩ := new_ok (α := α)
+  obtain ⟨r', h1, h2, _, h4⟩ := history_gen P params_wf ops (Rope.new false) hI L' (by rw [hf]; exact h)
+  exact ⟨r', h1, h2, h4⟩
+
+/-- the scaled-down twin compiled into the harness is covered by the same theorem -/
+theorem history_small (ops : List (Op α)) (r : Chunks α) (hI : RInv Gen.ropeParamsSmall r) (L' : List α)
+    (h : runVec (flat r) ops = some L') :
+    ∃ r', runRope Gen.ropeParamsSmall r ops = .ok r' ∧ RInv Gen.ropeParamsSmall r' ∧ observe r' = observeVec L' := by
+  obtain ⟨r', h1, h2, _, h4⟩ := history_gen _ params_small_wf ops r hI L' h
+  exact ⟨r', h1, h2, h4⟩
+
+/-- the pre-fix constructor (`new()` = one empty chunk) violates the property: recorded witness of
+finding A, kept so the defect stays reproducible in the model (`sddriver --legacy`). -/
+theorem legacy_new_breaks_iteration :
+    (match Rope.insert P (Rope.new true : Chunks Nat) 0 7 with
+     | .ok r => flat r == [7] && (match iter r with | .ok l => l == [] | .error _ => false)
+     | .error _ => false) = true := by decide
+
+/-! ### non-vacuity -/
+example : RInv P ([[1,2,3],[4],[5,6,7,8,9,10,11,12,13,14,15,16,17,18,19]] : Chunks Nat) := by
+  intro c hc; simp at hc; rcases hc with rfl | rfl | rfl <;> decide
+example : runVec [1,2,3,4,5] [Op.insert 2 9, .drain 0 1, .swap 0 3, .remove 1, .set 0 8] = some [8, 4, 9] := by decide
+
 end C09
